@@ -22,13 +22,18 @@ zero-filled tails, directory / unreadable / foreign-version entries, and every c
 write and failing call of update_cache itself; the run (resp. the NEXT run) must equal the uncached
 run and leave a valid entry.
 
+Part 4 (xv/c19_names.py): different scripts never share an entry - every script name over a small
+alphabet aimed at the path-escaping scheme; entries located by effect, colliding and targeted pairs run
+in both orders against the uncached run.
+
 Part 3 (xv/c19_proc.py): a small completely enumerated set of run ; event ; run ; run histories at
 process level (`python -m xonsh s.xsh`, `-c`, --no-script-cache, --cache-everything through main.py).
 
 Does not require:
   * anything about WHICH code runs while mtime(source) <= mtime(cache) and the entry was compiled from
     an older text ("newer" only) - such runs are only required not to be fatal;
-  * detection of damage that still unmarshals to a code object (bit flips, NUL bytes in the last bytes);
+  * detection of damage that still unmarshals to a code object (bit flips, NUL bytes in the last bytes):
+    such entries are counted as "loaded flipped code: not judged" and their bytecode is never executed;
   * that the cache is used at all (a run that always recompiles is equivalent), nor that a stale or
     absent entry is (re)written; only damaged / foreign entries must be rebuilt, and only when the
     documented switches enable the cache without doubt and the directory is writable;
@@ -406,8 +411,9 @@ def run(ctx):
     from . import c19_fault
 
     p2 = c19_fault.run_part(ctx)
-    from . import c19_proc
+    from . import c19_names, c19_proc
 
+    p4 = c19_names.run_part(ctx)
     p3 = c19_proc.run_part(ctx)
     runs = sum(1 for e in h.events if e[0] in ("run", "code"))
     ctx.coverage.update(
@@ -427,6 +433,7 @@ def run(ctx):
         fault_part=p2["summary"],
         fault_cases=p2["evaluations"],
         process_level_part=p3,
+        script_names_part=p4,
         permission_bits_bind=h.caps_ok,
         explanation="part 1: every transition is an execution of the real run_script_with_cache / run_code_with_cache (or a file-system event) on a real source file and cache directory; a state is (body, now-source tick, read-only flag, per entry: kind read from the bytes, source-cache tick distance, text / namespace / mode it was compiled from).  The implementation keeps no in-memory state between runs, so prefixes are re-materialised from byte-exact snapshots of the cache directory after their first real execution.  part 2: every listed corruption / fault case is one or more real runs compared with the uncached run",
     )
@@ -446,6 +453,10 @@ def replay(rec):
         from . import c19_fault
 
         return c19_fault.replay(rec)
+    if c.get("part") == 4:
+        from . import c19_names
+
+        return c19_names.replay(rec)
     if c.get("part") == 3:
         from . import c19_proc
 
